@@ -7,7 +7,7 @@ cd /verif || exit 2
 W=$(mktemp -d /tmp/vreplay-XXXXXX) || exit 2
 trap 'rm -rf "$W"' EXIT
 [ -x bin/instrument ] || go build -o bin/instrument ./tools/instrument || exit 2
-case "$ID" in C14|C15) RULES=r2,r3,r4 ;; C16) RULES=r2,r6 ;; C03|C04|C08|C12|C13) RULES=none ;; *) RULES=r1,r2,r5 ;; esac
+case "$ID" in C14|C15) RULES=r2,r3,r4 ;; C16) RULES=r2,r6 ;; C12) RULES=r2 ;; C03|C04|C08|C13) RULES=none ;; *) RULES=r1,r2,r5 ;; esac
 REPO="${VERIF_REPO:-/repo}"; MODFLAG=""
 if [ "$REPO" != /repo ]; then sed "s#=> /repo#=> $REPO#" go.mod > "$W/alt.mod"; cp go.sum "$W/alt.sum"; MODFLAG="-modfile=$W/alt.mod"; fi
 ./bin/instrument -repo "$REPO" -out "$W" -rules "$RULES" -rt /verif/rt >/dev/null || exit 2
